@@ -100,7 +100,7 @@ impl Evaluation {
 
     pub fn mate_in_ply(ply: usize) -> Evaluation {
         // Give a little bonus for faster mates
-        Evaluation::POS_INF + Evaluation::ONE_PAWN * i32::max(10 - (ply as i32), 0)
+        Evaluation::POS_INF + Evaluation::ONE_PAWN * (10usize.saturating_sub(ply) as i32)
     }
 
     pub fn is_terminal(self) -> bool {
